@@ -141,7 +141,15 @@ def run(chk):
         r = [n for n in walk(c["body"]) if n.get("k") == "return"]
         okr = len(r) == 1 and strip_copy(r[0]["e"]).get("k") == "ctor" and [canon(a, sc) for a in strip_copy(r[0]["e"])["args"]] == ["$p0", "%coeffs", "1"]
         chk.ob("C20-R4", "%s::constant = one coefficient row per segment equal to the value, coefficient count 1, on the given breakpoints" % cls, okz and okl and okr, loc(c), asg, construct=cls + "/constant")
-        chk.ob("C20-R3", "%s batch evaluation = pointwise evaluation (decided by C03-R1)" % cls, True, "", "see C03-R1 'batch evaluation = scalar evaluation of each time in order'", construct=cls + "/batch-ref")
+        # batch = pointwise: the batch route's obligation of C03-R1, re-derived here on the current tree
+        from .. import core
+        from . import c03
+        sub = core.Check("C03", chk.tier, chk.root)
+        c03.check_funnel(sub, F, cls)
+        bo = [o for o in sub.obs if o["construct"].endswith("/batch")]
+        if len(bo) != 1:
+            raise Broken("batch-evaluation obligation of C03-R1 not found for " + cls)
+        chk.ob("C20-R3", "%s batch evaluation = pointwise evaluation of each time, in order" % cls, bo[0]["ok"], bo[0]["where"], bo[0].get("detail", ""), construct=cls + "/batch")
     chk.floor("C20-R1", 20)
     chk.floor("C20-R2", 16)
     chk.floor("C20-R4", 8)
